@@ -49,10 +49,11 @@ def _library_frames(tb):
 
 
 def _exec_checked(profile, case, known):
-    from . import simfs
+    from . import simfs, lib
     ev0 = simfs.EVENTS[0]
     try:
-        res = profile.execute(case)
+        with lib.knobs(dedup_chunk=case.get('dedup_chunk') if isinstance(case, dict) else None):
+            res = profile.execute(case)
         if not res.io_events:
             res.io_events = simfs.EVENTS[0] - ev0
     except Exception as exc:
@@ -93,8 +94,7 @@ def run_batch(args):
         faulthandler.dump_traceback_later(world_timeout, exit=True)
         try:
             t0 = time.perf_counter()
-            gi = getattr(profile, 'generate_indexed', None)
-            case = gi(run, rng, tier) if gi is not None else profile.generate(rng, tier)
+            case = make_case(profile, rng, run, tier)
             t1 = time.perf_counter()
             res = _exec_checked(profile, case, known)
             t2 = time.perf_counter()
@@ -207,10 +207,18 @@ def fork_exec(profile, known, history, case, timeout=300):
     return _Light(vs, out[2])
 
 
-def regenerate(profile, prop, tier, base_seed, run):
-    rng = random.Random(world_seed(base_seed, prop, tier, run))
+def make_case(profile, rng, run, tier):
     gi = getattr(profile, 'generate_indexed', None)
-    return gi(run, rng, tier) if gi is not None else profile.generate(rng, tier)
+    case = gi(run, rng, tier) if gi is not None else profile.generate(rng, tier)
+    if isinstance(case, dict) and 'dedup_chunk' not in case:
+        # swarm knob for every profile: block size of the reader's offset-array comparison (default 100 segments), so
+        # that the multi-block paths run on files of a few segments.  Drawn after generation: worlds do not depend on it
+        case['dedup_chunk'] = rng.choice([1, 2, 3, 100, 100])
+    return case
+
+
+def regenerate(profile, prop, tier, base_seed, run):
+    return make_case(profile, random.Random(world_seed(base_seed, prop, tier, run)), run, tier)
 
 
 def write_replay(prop, tier, base_seed, run, seed, case, violations, extra=None):
